@@ -79,6 +79,8 @@ structure StartInv (cfg : Cfg) (now : Nat) (cl : Call) : Prop where
   lat : cl.phase = .latency → cfg.delay 1 ≠ 0 ∧ ∃ t tl, starts cl = t :: tl ∧
         (tl.length + 1 < cfg.max → cl.nextHedgeAt = t + timerMs cfg (tl.length + 1))
   drain : cl.phase = .drain → (starts cl).length = cfg.max
+  /-- outside parallel mode the attempt whose delay is never due is not started -/
+  nev : 1 < cfg.max → cfg.delay 1 ≠ 0 → ∀ n, 1 ≤ n → cfg.never n = true → (starts cl).length ≤ n
 
 structure ChanInv (cfg : Cfg) (now : Nat) (cl : Call) : Prop where
   finOk : ∀ a ∈ cl.attempts, ∀ tf, a.fin = some tf → a.doneAt ≤ tf ∧ tf ≤ now ∧ a.out ≠ .never
@@ -139,6 +141,7 @@ theorem StartInv.congr {cfg now} {cl cl' : Call} (h : StartInv cfg now cl)
   · rw [hs]; exact h.startLe
   · rw [hp, hs, hn]; exact h.lat
   · rw [hp, hs]; exact h.drain
+  · rw [hs]; exact h.nev
 
 theorem ChanInv_finMove {cfg now} {cl : Call} {pre a post} (h : ChanInv cfg now cl)
     (hatt : cl.attempts = pre ++ a :: post) (hfin : a.fin = none) (hdue : a.doneAt ≤ now)
@@ -353,6 +356,7 @@ theorem StartInv_dead {cfg now} {cl cl' : Call} (h : StartInv cfg now cl)
   · rw [hs]; exact h.startLe
   · intro hp; rw [hp] at hl; simp [live] at hl
   · intro hp; rw [hp] at hl; simp [live] at hl
+  · rw [hs]; exact h.nev
 
 theorem sendable_cases {o : Out} (h : sendable o = true) : o = .ok ∨ ∃ kd, o = .err kd := by
   cases o <;> simp [sendable] at h ⊢
@@ -700,6 +704,16 @@ theorem spawnLat_inv (cfg : Cfg) (now c : Nat) : ∀ (fuel : Nat) (w : W),
         rcases List.mem_cons.mp hx with q | q
         · omega
         · exact h.st.startLe x (by rw [hst]; exact q)
+      have hnev : 1 < cfg.max → cfg.delay 1 ≠ 0 → ∀ n, 1 ≤ n → cfg.never n = true →
+          (now :: t :: tl).length ≤ n := by
+        intro h1 h2 n hn1 hnv
+        have hold := h.st.nev h1 h2 n hn1 hnv
+        rw [hst] at hold
+        have hne : n ≠ tl.length + 1 := by
+          intro he; subst he
+          have hf := hg.2.2
+          rw [hlen, hnv] at hf; cases hf
+        simp only [List.length_cons] at hold ⊢; omega
       apply ih
       · split
         · refine ⟨?_, ⟨q1.finOk, q1.sorted, q1.chanMem, q1.okIn, q1.recvdErr, q1.count, q1.fresh⟩,
@@ -719,6 +733,9 @@ theorem spawnLat_inv (cfg : Cfg) (now c : Nat) : ∀ (fuel : Nat) (w : W),
           · intro hq
             have hq' : (startAttempt now c w).cl.phase = .drain := hq
             rw [q3, hp] at hq'; cases hq'
+          · show 1 < cfg.max → cfg.delay 1 ≠ 0 → ∀ n, 1 ≤ n → cfg.never n = true →
+              (starts (startAttempt now c w).cl).length ≤ n
+            rw [q4, hst]; exact hnev
         · rename_i hnm
           refine ⟨?_, q1, q2⟩
           constructor
@@ -730,6 +747,7 @@ theorem spawnLat_inv (cfg : Cfg) (now c : Nat) : ∀ (fuel : Nat) (w : W),
             intro hlt
             exfalso; apply hnm; rw [hn]; simpa using hlt
           · intro hq; rw [q3, hp] at hq; cases hq
+          · rw [q4, hst]; exact hnev
       · split
         · show (startAttempt now c w).cl.phase = .latency
           rw [q3, hp]
@@ -789,6 +807,7 @@ theorem pollFresh_inv {cfg : Cfg} {now : Nat} (c : Nat) {w : W} (hmax : 1 ≤ cf
       refine ⟨hg.2, now, [], q4', ?_⟩
       intro _; rw [q5]; rfl
     · intro hq; rw [q3] at hq; cases hq
+    · rw [q4']; intro _ _ n hn1 _; simpa using hn1
   · rename_i hg
     have c0 : ChanInv cfg now { w.cl with phase := .drain } := by
       constructor
@@ -825,6 +844,7 @@ theorem pollFresh_inv {cfg : Cfg} {now : Nat} (c : Nat) {w : W} (hmax : 1 ≤ cf
     · rw [r4']; intro t ht; rw [(List.mem_replicate.mp ht).2]; exact Nat.le_refl _
     · intro hq; rw [r3, q3] at hq; cases hq
     · intro _; rw [r4']; simp
+    · intro h1 h2; exact absurd ⟨h1, h2⟩ hg
 
 /-! ## one poll, one drop, time -/
 
@@ -858,7 +878,7 @@ theorem dropCall_inv {cfg : Cfg} {now : Nat} {cl : Call} (h : CallInv cfg now cl
 
 theorem CallInv.mono {cfg : Cfg} {now now' : Nat} {cl : Call} (h : CallInv cfg now cl) (hle : now ≤ now') :
     CallInv cfg now' cl := by
-  refine ⟨⟨h.st.bound, h.st.spaced, fun t ht => Nat.le_trans (h.st.startLe t ht) hle, h.st.lat, h.st.drain⟩,
+  refine ⟨⟨h.st.bound, h.st.spaced, fun t ht => Nat.le_trans (h.st.startLe t ht) hle, h.st.lat, h.st.drain, h.st.nev⟩,
     ⟨?_, h.ch.sorted, h.ch.chanMem, h.ch.okIn, h.ch.recvdErr, h.ch.count, h.ch.fresh⟩, ⟨h.rs.noRes, ?_⟩⟩
   · intro a ha tf htf
     obtain ⟨q1, q2, q3⟩ := h.ch.finOk a ha tf htf
@@ -869,7 +889,8 @@ theorem CallInv.mono {cfg : Cfg} {now now' : Nat} {cl : Call} (h : CallInv cfg n
 
 theorem CallInv_new (cfg : Cfg) (now : Nat) (plan : List Step) (warm : List (Option Nat)) :
     CallInv cfg now { plan := plan, warm := warm } := by
-  refine ⟨⟨Nat.zero_le _, trivial, ?_, ?_, ?_⟩, ⟨?_, List.Pairwise.nil, ?_, ?_, ?_, ?_, ?_⟩, ⟨fun _ => rfl, ?_⟩⟩
+  refine ⟨⟨Nat.zero_le _, trivial, ?_, ?_, ?_, fun _ _ n _ _ => Nat.zero_le n⟩,
+    ⟨?_, List.Pairwise.nil, ?_, ?_, ?_, ?_, ?_⟩, ⟨fun _ => rfl, ?_⟩⟩
   · intro t ht; cases ht
   · intro hq; cases hq
   · intro hq; cases hq
